@@ -217,3 +217,89 @@ func StartCanary() *Canary {
 }
 
 func (c *Canary) Stop() time.Duration { close(c.stop); return time.Duration(c.worst.Load()) }
+
+// GoexitScenario (real clock, the package's own initial state, idle timeout 50 ms; run it in a process of its own):
+// callbacks that end the goroutine they run on (runtime.Goexit(), which is what t.FailNow() does in a test
+// callback). Whatever a callback does to its own goroutine, the other scheduled functions are not cancelled and
+// have to be started (F15), each at most once, and the package still winds down to no worker. variant 0..2 selects
+// the pause after the first such callback and which third of the burst ends its goroutine.
+func GoexitScenario(idx int) (sig, what string, phase, evals int) {
+	timeout.VerifSetIdle(50 * time.Millisecond)
+	waitFor := func(cond func() bool, d time.Duration) bool {
+		dl := time.Now().Add(d)
+		for !cond() {
+			if time.Now().After(dl) {
+				return false
+			}
+			time.Sleep(200 * time.Microsecond)
+		}
+		return true
+	}
+	// phase 1: one future whose callback ends its goroutine (the only worker), then a plain one
+	var first, second atomic.Int32
+	timeout.Call(func() { first.Add(1); runtime.Goexit() }, time.Millisecond)
+	if !waitFor(func() bool { return first.Load() > 0 }, 20*time.Second) {
+		return "timer/never-started", "a single future 1 ms ahead was not started within 20 s", 1, evals
+	}
+	time.Sleep(time.Duration(idx%3) * 40 * time.Millisecond) // 0: at once, 1/2: around and after the idle timeout
+	timeout.Call(func() { second.Add(1) }, time.Millisecond)
+	evals += 2
+	if !waitFor(func() bool { return second.Load() > 0 }, 20*time.Second) {
+		w, p := timeout.VerifState()
+		return "timer/never-started-after-callback-ended-its-goroutine", fmt.Sprintf("a callback called runtime.Goexit(); a future scheduled %d ms later (1 ms ahead, not cancelled) was not started within 20 s; the package says workers=%d pending=%d", (idx%3)*40, w, p), 1, evals
+	}
+	// phase 2: a burst larger than the pool, every third callback ends its goroutine
+	const n = 60
+	var counts [n]atomic.Int32
+	for i := 0; i < n; i++ {
+		i := i
+		timeout.Call(func() {
+			counts[i].Add(1)
+			if i%3 == idx%3 {
+				runtime.Goexit()
+			}
+		}, time.Duration(1+i%4)*time.Millisecond)
+	}
+	evals += n
+	all := func() bool {
+		for i := range counts {
+			if counts[i].Load() == 0 {
+				return false
+			}
+		}
+		return true
+	}
+	if !waitFor(all, 20*time.Second) {
+		missing := 0
+		for i := range counts {
+			if counts[i].Load() == 0 {
+				missing++
+			}
+		}
+		w, p := timeout.VerifState()
+		return "timer/never-started-after-callback-ended-its-goroutine", fmt.Sprintf("burst of %d futures, every third callback calls runtime.Goexit(): %d of them were not started within 20 s (workers=%d pending=%d)", n, missing, w, p), 2, evals
+	}
+	time.Sleep(300 * time.Millisecond)
+	if first.Load() > 1 || second.Load() > 1 {
+		return "timer/started-twice", fmt.Sprintf("a callback that ended its goroutine was started %d times, the one after it %d times", first.Load(), second.Load()), 1, evals
+	}
+	for i := range counts {
+		if c := counts[i].Load(); c > 1 {
+			return "timer/started-twice", fmt.Sprintf("future %d of the burst (its callback ends its goroutine: %v) was started %d times", i, i%3 == idx%3, c), 2, evals
+		}
+	}
+	// phase 3: nothing pending: no worker stays (12 idle periods + 2 s; healthy: 2 idle periods)
+	if !waitFor(func() bool { w, p := timeout.VerifState(); return w == 0 && p == 0 }, 12*50*time.Millisecond+2*time.Second) {
+		w, p := timeout.VerifState()
+		if w < 0 || p == 0 {
+			return "timer/no-wind-down", fmt.Sprintf("after callbacks that ended their goroutines and with nothing pending the package says workers=%d pending=%d", w, p), 3, evals
+		}
+	}
+	var third atomic.Int32
+	timeout.Call(func() { third.Add(1) }, time.Millisecond)
+	evals++
+	if !waitFor(func() bool { return third.Load() > 0 }, 20*time.Second) {
+		return "timer/no-restart-after-wind-down", "after the wind-down that followed goroutine-ending callbacks a new future was not started within 20 s", 3, evals
+	}
+	return "", "", 0, evals
+}
